@@ -652,7 +652,7 @@ class Checker:
         rec = self.S(e.inferred_type)
         exp = expected if expected is not None else rec
         for br, s in ((e.true_branch, s_true), (e.false_branch, s_false)):
-            bt = self.typeof(br, s, where, exp)
+            bt = self.typeof(br, s, where, expected)
             if expected is not None:
                 self.assignable(bt, exp, where, 'branch', br)
             # without a context (receiver position, statement) a compiler types the
